@@ -54,11 +54,7 @@ pub(crate) fn set_nth(mut args: ArgumentResult, visitor: &mut Visitor) -> SassRe
     args.max_args(3)?;
     let (mut list, sep, brackets) = match args.get_err(0, "list")? {
         Value::List(v, sep, b) => (v, sep, b),
-        Value::ArgList(v) => (
-            v.elems.into_iter().collect(),
-            ListSeparator::Comma,
-            Brackets::None,
-        ),
+        Value::ArgList(v) => (v.elems, v.separator, Brackets::None),
         Value::Map(m) => (m.as_list(), ListSeparator::Comma, Brackets::None),
         v => (vec![v], ListSeparator::Undecided, Brackets::None),
     };
@@ -102,7 +98,7 @@ pub(crate) fn append(mut args: ArgumentResult, visitor: &mut Visitor) -> SassRes
     args.max_args(3)?;
     let (mut list, sep, brackets) = match args.get_err(0, "list")? {
         Value::List(v, sep, b) => (v, sep, b),
-        Value::ArgList(v) => (v.elems, ListSeparator::Comma, Brackets::None),
+        Value::ArgList(v) => (v.elems, v.separator, Brackets::None),
         Value::Map(m) => (m.as_list(), ListSeparator::Comma, Brackets::None),
         v => (vec![v], ListSeparator::Undecided, Brackets::None),
     };
@@ -149,13 +145,13 @@ pub(crate) fn join(mut args: ArgumentResult, visitor: &mut Visitor) -> SassResul
     args.max_args(4)?;
     let (mut list1, sep1, brackets) = match args.get_err(0, "list1")? {
         Value::List(v, sep, brackets) => (v, sep, brackets),
-        Value::ArgList(v) => (v.elems, ListSeparator::Comma, Brackets::None),
+        Value::ArgList(v) => (v.elems, v.separator, Brackets::None),
         Value::Map(m) => (m.as_list(), ListSeparator::Comma, Brackets::None),
         v => (vec![v], ListSeparator::Undecided, Brackets::None),
     };
     let (list2, sep2) = match args.get_err(1, "list2")? {
         Value::List(v, sep, ..) => (v, sep),
-        Value::ArgList(v) => (v.elems, ListSeparator::Comma),
+        Value::ArgList(v) => (v.elems, v.separator),
         Value::Map(m) => (m.as_list(), ListSeparator::Comma),
         v => (vec![v], ListSeparator::Undecided),
     };
